@@ -52,6 +52,7 @@ std::shared_ptr<TypeObj> type_lookup(MPI_Datatype h, const char *who, bool need_
 }
 MPI_Datatype type_register(std::shared_ptr<TypeObj> t) {
     TypeSlot s; s.obj = t; s.live = true; s.owner = cur_rank(); s.in_lib = in_lib();
+    static const bool want_sites = getenv("VERIF_TYPE_SITES") != nullptr; if (want_sites) s.site = lib_site();
     slots.push_back(s);
     if (s.in_lib) rank_res_mut(s.owner).types++;
     return HBASE + (int)slots.size() - 1;
@@ -59,7 +60,7 @@ MPI_Datatype type_register(std::shared_ptr<TypeObj> t) {
 TypeSlot &slot_ref(int h) { return slots[h - HBASE]; }
 std::string type_leaks(int rank) {
     std::string out; int n = 0;
-    for (auto &s : slots) if (s.live && s.in_lib && s.owner == rank) { if (n++ < 6) out += " combiner=" + std::to_string(s.obj->combiner) + "/size=" + std::to_string(s.obj->size); }
+    for (auto &s : slots) if (s.live && s.in_lib && s.owner == rank) { if (n++ < 6) out += " combiner=" + std::to_string(s.obj->combiner) + "/size=" + std::to_string(s.obj->size) + (s.site.empty() ? "" : "@" + s.site); }
     return out;
 }
 
